@@ -230,8 +230,8 @@ def oracle(case, obs):
         S = max(1.0, max(abs(v) for v in h))
         slack = 8 * EPS * S
         for i in range(n):
-            if abs(h[i] - leaf[i]) > leaf_tol(leaf[i]):
-                bad.append(("tips", f"tip {i} at height {h[i]!r} but sampled at {leaf[i]!r} (row {b})"))
+            if abs(h[i] - leaf[i]) > leaf_tol(leaf[i], H.dtype):
+                bad.append(("tips", f"tip {i} at height {h[i]!r} but sampled at {leaf[i]!r} ({H.dtype}; row {b})"))
                 break
         for p, c in obs["edges"]:
             if not (h[p] >= h[c] - slack):
@@ -272,12 +272,15 @@ def oracle(case, obs):
 EPS = 2.220446049250313e-16
 
 
-def leaf_tol(h):
-    """a sampling time that float32 holds exactly must be matched exactly; otherwise to float32 accuracy
-    (TimeTreeModel keeps sampling_times in the default dtype)"""
+def leaf_tol(h, dtype=torch.float64):
+    """TimeTreeModel gives sampling_times the dtype of the internal heights: with float64 heights a tip must equal
+    max(date) − date (or the age) computed in double EXACTLY; with float32 heights it is that double rounded to float32
+    (half an ulp of float32)."""
+    if dtype == torch.float64:
+        return 0.0
     if float(torch.tensor(h, dtype=torch.float32).item()) == h:
         return 0.0
-    return 1e-6 + 2.0 ** -23 * abs(h)
+    return 2.0 ** -24 * abs(h) + 1e-45
 
 
 def inverse_tolerances(kind, t, n, edges, h, xrow):
@@ -337,14 +340,15 @@ def correspond(ck: Check, drv, case, obs):
     dates_s = " ".join(G.rat_str(d) for d in case["dates"])
     leaf_m = [Fraction(v) for v in drv.ask(f"leaf R | {dates_s}").split()]
     if "sampling" in obs:
+        # the model subtracts exactly; the implementation's double subtraction max − date may round: half an ulp
         if len(obs["sampling"]) != len(leaf_m) or any(
-                abs(a - float(m_)) > leaf_tol(float(m_)) for a, m_ in zip(obs["sampling"], leaf_m)):
+                abs(a - float(m_)) > 2.0 ** -53 * abs(float(m_)) * 1.0000001 for a, m_ in zip(obs["sampling"], leaf_m)):
             mm("sampling_times", obs["sampling"], [float(v) for v in leaf_m])
         elif [Fraction(v) for v in obs["sampling"]] != leaf_m:
-            # dates that float32 cannot hold: from here on the model is fed the sampling times the
-            # implementation really carries (their agreement with max − date is checked just above)
+            # decimal dates whose difference is not a double: from here on the model is fed the (correctly rounded)
+            # sampling times the implementation carries
             leaf_m = [Fraction(v) for v in obs["sampling"]]
-            ck.bucket("dates/float32-rounded")
+            ck.bucket("dates/double-rounded-difference")
     s_s = " ".join(G.rat_str(v) for v in leaf_m)
     if kind == "ratio" and "bounds" in obs:
         b_m = [Fraction(v) for v in drv.ask(f"bounds R {n} {tr} | {s_s}").split()]
@@ -366,9 +370,8 @@ def correspond(ck: Check, drv, case, obs):
             x_f = " ".join(f2h(v) for v in xrow)
             s_f = " ".join(f2h(float(v)) for v in leaf_m)
             h_m = [h2f(v) for v in drv.ask(f"dfwd F {n} {tr} {kbits} | {s_f} | {x_f}").split()]
-            # the implementation evaluates logsumexp over pairs of *tips* in float32 (sampling_times has the
-            # default dtype), hence the float32-level tolerance for this variant only
-            tol32 = 4 * 2.0 ** -23 * max(1.0, max(abs(v) for v in h_impl))
+            # sampling_times carry the dtype of the heights (float64 here): logsumexp over tips is double too
+            tol32 = 1e-10 * max(1.0, max(abs(v) for v in h_impl))
             if not all(abs(a - c) <= tol32 for a, c in zip(h_impl, h_m)) or len(h_m) != n - 1:
                 mm("difference forward (smooth max)", h_impl, h_m)
             if invrows:
@@ -767,15 +770,15 @@ def run_kbl(case):
             continue
         S = max(1.0, max(abs(v) for v in Hexp))
         for i in range(n):
-            if abs(h[i] - leaf[i]) > leaf_tol(leaf[i]):
+            if abs(h[i] - leaf[i]) > leaf_tol(leaf[i], m.node_heights.dtype):
                 bad.append((f"{cls}:tips", f"tip {i} at height {h[i]!r} but sampled at {leaf[i]!r}"))
                 break
         for i in range(n, 2 * n - 1):
-            if abs(h[i] - Hexp[i]) > 2e-5 * S:  # heights_from_branch_lengths works in float32 with a 1e-6 floor
+            if abs(h[i] - Hexp[i]) > 1e-10 * S:  # heights_from_branch_lengths works in double (floor 1e-6 not reached here)
                 bad.append((f"{cls}:heights", f"node {i} at height {h[i]!r}; the dated tree has it at {Hexp[i]!r}"))
                 break
         for p, c in edges:
-            if not (br[c] >= -1e-9) or abs(br[c] - (Hexp[p] - Hexp[c])) > 4e-5 * S:
+            if not (br[c] >= -1e-12 * S) or abs(br[c] - (Hexp[p] - Hexp[c])) > 2e-10 * S:
                 bad.append((f"{cls}:branch", f"branch {c} has length {br[c]!r}; the dated tree has {Hexp[p] - Hexp[c]!r}"))
                 break
     return bad
@@ -881,8 +884,9 @@ def run(ck: Check):
     ck.assumptions += [
         "theorems are over the reals; float64 evaluation is tied by bit-exact agreement on dyadic inputs (forward "
         "maps, bounds, branch lengths) and by 1e-12 agreement for the ratio inverse (one division)",
-        "sampling dates are exactly representable in float32 (TimeTreeModel stores sampling_times in the default "
-        "dtype); dates with min 0 are ages, any other vector is read as calendar dates (height = max − date)",
+        "sampling_times carry the dtype of the internal heights: with float64 heights a tip equals max(date) − date (or "
+        "the age) computed in double exactly, with float32 heights that value rounded to float32; dates with min 0 are "
+        "ages, any other vector is read as calendar dates",
         "dendropy's Newick parser and traversal order are trusted: the model takes the tree as a binary tree whose "
         "child order is the order written",
         "cuda() cannot be executed here (no GPU): its body is covered by the generated table and theorem only",
